@@ -207,6 +207,34 @@ def k_bee():
             "hdr_kib_key": hdr._kib.kib_key, "hdr_prdb_counter": hdr._prdb.counter}, b""
 
 
+def k_sb1():
+    """SB 1.x image: DEK and MAC are chosen at construction (kept in the object; the format stores them for encrypted files)."""
+    from spsdk.sbfile.sb1.images import SecureBootV1
+
+    img = SecureBootV1(version="1.1")
+    return {"dek": img._dek, "mac": img._mac}, b""
+
+
+def k_bootimgrt():
+    """Legacy i.MX RT boot image, HAB-encrypted application with the nonce left to the library."""
+    from spsdk.image.images import BootImgRT
+
+    img = BootImgRT(0x60000000, BootImgRT.IVT_OFFSET_NOR_FLASH)
+    app = bytes(4) + (0x60002000 + 0x400).to_bytes(4, "little") + bytes(range(256)) * 4
+    img.add_image(app, address=0x60002400, dek_key=bytes(range(16)))
+    return {"nonce": img._nonce}, b""
+
+
+def k_dice():
+    """DICE attestation challenge issued by the local verification service."""
+    from spsdk.dice.service_local import LocalDICEVerificationService
+
+    with tempfile.TemporaryDirectory() as td:
+        svc = LocalDICEVerificationService(os.path.join(td, "dice.sqlite"))
+        ch = svc.get_challenge()
+    return {"challenge": ch}, b""
+
+
 _HAB_WS = []
 
 
@@ -270,7 +298,8 @@ def k_sb1():
 KINDS = {"sb20": k_sb20, "sb21": k_sb21, "advp": k_advp, "sb21cfg": k_sb21cfg, "mbi_class": k_mbi_class, "mbi_cfg": k_mbi_cfg,
          "otfad": k_otfad, "iee": k_iee, "bee": k_bee, "hab": k_hab, "hexstr": k_hexstr,
          "sb21cfg_same": lambda: k_sb21cfg(True), "mbi_cfg_same": lambda: k_mbi_cfg(True), "hab_same": lambda: k_hab(True),
-         "mbi_cfg_sameobj": lambda: k_mbi_cfg(False, True)}
+         "mbi_cfg_sameobj": lambda: k_mbi_cfg(False, True),
+         "sb1": k_sb1, "bootimgrt": k_bootimgrt, "dice": k_dice}
 
 
 def fork_mode():
